@@ -1208,7 +1208,7 @@ def case_big_texts(ctx, rseed):
     try:
         for rounds in range(3):
             n = r.choice([99, 1200, 5000, 12345])
-            m = r.randint(9000, 16000)
+            m = r.choice([r.randint(9000, 16000), 8192, 16384, 3 * 4096, 65536, 32768 + r.choice([-1, 0, 1])])   # also block-sized counts
             clauses = [[r.choice([1, -1]) * r.randint(1, n) for _ in range(r.randint(1, 4))] for _ in range(m)]
             # pad so that multiples of 65536 fall at varying places inside clause lines
             lines = ["c %s" % ("x" * r.randint(0, 40)), "p cnf %d %d" % (n, m)] + [" ".join(map(str, c + [0])) for c in clauses]
@@ -1237,6 +1237,13 @@ def case_big_texts(ctx, rseed):
                 st2, F2 = ctx.call(CNF.from_file, io.StringIO(out))
                 if st2 == "exc" or [list(c) for c in F2] != clauses or F2.number_of_variables() != n:
                     ctx.violation("roundtrip:big-formula", "%s: writing and reading it again changes the formula" % label)
+                try:
+                    rn, rc = ref.read(out)
+                    if rn != n or [list(c) for c in rc] != clauses:
+                        ctx.violation("dimacs-writer:big-formula:text-denotes-another-formula",
+                                      "%s: the text written for it declares/holds %d variables, %d clauses" % (label, rn, len(rc)))
+                except Exception as e:      # noqa: BLE001 - ref.Rejected
+                    ctx.violation("dimacs-writer:big-formula:output-not-readable", "%s: the text written for it: %r" % (label, e))
                 ctx.judged(("big-text", n, m, route, rseed, rounds), nontrivial=True,
                            sample={"chars": len(text), "variables": n, "clauses": m, "route": route})
     finally:
